@@ -437,7 +437,6 @@ func runC18(c *mc.Ctx) {
 	c.Assume("outside the bound: sequences longer than the enumerated length (except the arithmetic-progression family), hashes/amounts/scripts outside the alphabets, negative amounts, nil elements in the argument")
 
 	maxLen := mc.Pick(c, 4, 5)
-	prodLen := mc.Pick(c, 2, 3)
 	nInSmall, nOutSmall := seqCount(c18NIn, 2), seqCount(c18NOut, 2)
 
 	// (a) every input sequence; outputs walk the short output sequences diagonally
@@ -456,14 +455,19 @@ func runC18(c *mc.Ctx) {
 		v, l := c18Frame(i)
 		c18Eval(w, c18Case{Ins: seqAt(c18NIn, (i*7919)%nInSmall), Outs: seqAt(c18NOut, i), Version: v, LockTime: l})
 	})
-	// (c) full product of short sequences
-	pIn, pOut := seqCount(c18NIn, prodLen), seqCount(c18NOut, prodLen)
-	c.Space(fmt.Sprintf("full product: input sequences x output sequences, both of length <= %d", prodLen), pIn*pOut)
-	c.ParFor(pIn*pOut, func(w *mc.W, i int64) {
-		w.State()
-		v, l := c18Frame(i)
-		c18Eval(w, c18Case{Ins: seqAt(c18NIn, i/pOut), Outs: seqAt(c18NOut, i%pOut), Version: v, LockTime: l})
-	})
+	// (c) full products of short sequences.  Inputs and outputs are ordered by separate
+	// comparators; the products establish that on the real code for every pairing of short
+	// sequences (thorough: 3 x 2 and 2 x 3; the 3 x 3 product, 7.1e7 transactions, ran clean once
+	// in 240 s and is left out of the registered tier for its cost)
+	for _, pl := range mc.Pick(c, [][2]int{{2, 2}}, [][2]int{{3, 2}, {2, 3}}) {
+		pIn, pOut := seqCount(c18NIn, pl[0]), seqCount(c18NOut, pl[1])
+		c.Space(fmt.Sprintf("full product: input sequences of length <= %d x output sequences of length <= %d", pl[0], pl[1]), pIn*pOut)
+		c.ParFor(pIn*pOut, func(w *mc.W, i int64) {
+			w.State()
+			v, l := c18Frame(i)
+			c18Eval(w, c18Case{Ins: seqAt(c18NIn, i/pOut), Outs: seqAt(c18NOut, i%pOut), Version: v, LockTime: l})
+		})
+	}
 	// (d) longer transactions (beyond the insertion-sort cut-off of sort.Sort): element k of the
 	// sequence is (a*k+b) mod alphabet size, for every (a,b)
 	lens := mc.Pick(c, []int{13, 20, 64}, []int{6, 7, 12, 13, 14, 20, 33, 64, 200})
